@@ -5,11 +5,14 @@
 (*                  revision 0 or 2) / near-miss signature with a good checksum, at most one valid; the two root tables list different tables  *)
 (*  enum family   : root pointer fixed; every list of <= MaxT distinct tables over APIC, SSDT, HPET, *)
 (*                  FACP in every order with every good/bad assignment; FADT with 32-bit, 64-bit or  *)
-(*                  both DSDT pointers; DSDT good/bad; the other root table lists a different table  *)
+(*                  both DSDT pointers; DSDT good/bad; the other root table lists a different table; *)
+(*                  for the 64-bit root: everything low, or XSDT + listed tables (+ the DSDT behind  *)
+(*                  X_DSDT alone) at or above 4 GiB                                                  *)
 EXTENDS AcpiModel
 CONSTANTS MaxT
 
-T(sig, len, bad) == [sig |-> sig, len |-> len, bad |-> bad, p32 |-> 0, p64 |-> 0]
+T(sig, len, bad) == [sig |-> sig, len |-> len, bad |-> bad, p32 |-> 0, p64 |-> 0, high |-> FALSE]
+TH(sig, len, bad, hi) == [T(sig, len, bad) EXCEPT !.high = hi]
 Cand(slot, rev, s20, s36, tail) == [slot |-> slot, rev |-> rev, sig |-> TRUE, s20 |-> s20, s36 |-> s36, tail |-> tail]
 
 \* ---- window family
@@ -25,8 +28,9 @@ CandOf(slot, k) == CASE k = "V0"  -> Cand(slot, 0, TRUE, TRUE, 0)
 Windows == {w \in [1..4 -> SlotKinds] : Cardinality({i \in 1..4 : IsValidKind(w[i])}) <= 1}
 RECURSIVE CandSeq(_, _)
 CandSeq(w, i) == IF i > 4 THEN <<>> ELSE (IF w[i] = "none" THEN <<>> ELSE <<CandOf(i, w[i])>>) \o CandSeq(w, i + 1)
-WindowImages == { [cands |-> CandSeq(w, 1), rsdt |-> <<1>>, xsdt |-> <<2>>,
-                   tables |-> <<T("APIC", 44, -1), T("HPET", 56, -1)>>] : w \in Windows }
+\* (the 64-bit root table and the table it lists sit above 4 GiB)
+WindowImages == { [cands |-> CandSeq(w, 1), rsdt |-> <<1>>, xsdt |-> <<2>>, xhigh |-> TRUE,
+                   tables |-> <<T("APIC", 44, -1), TH("HPET", 56, -1, TRUE)>>] : w \in Windows }
 
 \* ---- enum family
 Sigs == {"APIC", "SSDT", "HPET", "FACP"}
@@ -35,7 +39,8 @@ BadAt(sig) == CASE sig = "APIC" -> 9 [] sig = "SSDT" -> 36 [] sig = "HPET" -> 8 
 Lists == UNION { {q \in [1..n -> Sigs] : \A i, j \in 1..n : q[i] = q[j] => i = j} : n \in 0..MaxT }
 HasFadt(q) == \E i \in 1..Len(q) : q[i] = "FACP"
 \* tables = listed tables in list order, then the DSDT (if a FADT is listed), then the decoy the other root table lists
-Mk(rev, q, goods, mode, dgood) ==
+\* hi: everything only 64-bit pointers refer to (XSDT, the tables it lists, the DSDT behind X_DSDT alone) lies above 4 GiB
+Mk(rev, q, goods, mode, dgood, hi) ==
   LET n == Len(q)
       hasF == HasFadt(q)
       d == IF hasF THEN n + 1 ELSE 0
@@ -43,16 +48,18 @@ Mk(rev, q, goods, mode, dgood) ==
       tb == [i \in 1..n |-> IF q[i] = "FACP"
                              THEN [sig |-> "FACP", len |-> IF mode = "32" /\ rev = 0 THEN 116 ELSE 244,
                                    bad |-> IF goods[i] THEN -1 ELSE (IF mode = "32" /\ rev = 0 THEN 115 ELSE 243),
-                                   p32 |-> IF mode \in {"32", "both"} THEN d ELSE 0, p64 |-> IF mode \in {"64", "both"} THEN d ELSE 0]
-                             ELSE T(q[i], LenOf(q[i]), IF goods[i] THEN -1 ELSE BadAt(q[i]))]
-      all == tb \o (IF hasF THEN <<T("DSDT", 61, IF dgood THEN -1 ELSE 60)>> ELSE <<>>) \o <<T("DCOY", 36, -1)>>
+                                   p32 |-> IF mode \in {"32", "both"} THEN d ELSE 0, p64 |-> IF mode \in {"64", "both"} THEN d ELSE 0,
+                                   high |-> hi]
+                             ELSE TH(q[i], LenOf(q[i]), IF goods[i] THEN -1 ELSE BadAt(q[i]), hi)]
+      all == tb \o (IF hasF THEN <<TH("DSDT", 61, IF dgood THEN -1 ELSE 60, hi /\ mode = "64")>> ELSE <<>>) \o <<T("DCOY", 36, -1)>>
       lst == [i \in 1..n |-> i]
   IN [cands |-> <<Cand(2, rev, TRUE, TRUE, 0)>>,
-      rsdt |-> IF rev = 0 THEN lst ELSE <<decoy>>, xsdt |-> IF rev = 0 THEN <<decoy>> ELSE lst, tables |-> all]
+      rsdt |-> IF rev = 0 THEN lst ELSE <<decoy>>, xsdt |-> IF rev = 0 THEN <<decoy>> ELSE lst, tables |-> all, xhigh |-> hi]
+His(rev) == IF rev = 0 THEN {FALSE} ELSE BOOLEAN           \* (revision 0 follows 32-bit pointers only)
 MCEnumImages ==
-  UNION { { Mk(rev, q, goods, "32", TRUE) : goods \in [1..Len(q) -> BOOLEAN] } : rev \in {0, 2}, q \in {l \in Lists : ~HasFadt(l)} }
-  \cup UNION { { Mk(rev, q, goods, mode, dg) : goods \in [1..Len(q) -> BOOLEAN], dg \in BOOLEAN,
-                                               mode \in (IF rev = 0 THEN {"32", "both"} ELSE {"32", "64", "both"}) }
+  UNION { { Mk(rev, q, goods, "32", TRUE, hi) : goods \in [1..Len(q) -> BOOLEAN], hi \in His(rev) } : rev \in {0, 2}, q \in {l \in Lists : ~HasFadt(l)} }
+  \cup UNION { { Mk(rev, q, goods, mode, dg, hi) : goods \in [1..Len(q) -> BOOLEAN], dg \in BOOLEAN, hi \in His(rev),
+                                                   mode \in (IF rev = 0 THEN {"32", "both"} ELSE {"32", "64", "both"}) }
                : rev \in {0, 2}, q \in {l \in Lists : HasFadt(l)} }
 MCImages == WindowImages \cup MCEnumImages
 ====
